@@ -8,7 +8,7 @@ ROUTER_TB = COMMON_TB + [
 ]
 
 CFG = {
-    "harness": ["router", "router:conflicts"],
+    "harness": ["router", "router:conflicts", "router:live"],
     "run_module": "Run_Router",
     "coq_header": "From DS Require Import Base Versions Router RouterSpec.\nFrom DSR Require Import Run_Router.",
     "case_type": "rcase",
@@ -23,7 +23,9 @@ CFG = {
             "non-trivial: two endpoints sharing a proper prefix, or a wildcard, or two ranges on one (path, method); "
             "distinct by case content. Judged: every lookup that finds, or by the table should find, an endpoint: "
             "operation id, variable map, content type and body limit against the declarative matcher over the "
-            "declarations the implementation accepted, and against the trie model.",
+            "declarations the implementation accepted, and against the trie model. A live slice (router:live) serves "
+            "tables with a real HttpServer (unversioned, or ClientSpecifiesVersionInHeader) and reads status, echoed "
+            "operation id / variables / content type / body limit and every Allow header line off the wire.",
     "trusted_base": ROUTER_TB,
     "assumptions": [
         "dropshot inspects versions only through Ord/Eq (chain indices are a faithful abstraction; C05 checks the order itself)",
